@@ -107,6 +107,7 @@ type sess struct {
 	syncFailed map[uint64]bool // keys written in a batch whose fsync failed (rollback path)
 	unchangedRewrite map[uint64]bool // keys whose last upload was answered "unchanged"
 	lastStep bool
+	rewrittenUnchanged map[uint64]bool // C09: keys whose last upload was an identical rewrite answered "unchanged"
 	orderHazard bool // at the last algorithm-1 compaction the largest live key was not the last appended record
 	appendOrd   map[uint64]int
 	ordCounter  int
@@ -173,6 +174,7 @@ func newSess(r *simkit.Run, prop string) *sess {
 	s.syncFailed = map[uint64]bool{}
 	s.unchangedRewrite = map[uint64]bool{}
 	s.appendOrd = map[uint64]int{}
+	s.rewrittenUnchanged = map[uint64]bool{}
 	s.gates = simkit.NewGates(r)
 	// keep reads away from expiry instants: every later clock move adds one extra millisecond
 	time.Sleep(500 * time.Millisecond)
@@ -360,15 +362,41 @@ func (s *sess) doWrite(st *simkit.Step) {
 		ttl = s.volTtl
 	}
 	after := &mblob{Blob: BlobFromArgs(a, n, s.volTtl), appendAt: t0, ttlMin: ttlMinutes(ttl), phase: s.phase}
-	if unchanged && before != nil && before.alts == nil {
-		// identical rewrite: nothing is appended, so the stored record keeps its age (TTL clock);
-		// the statement still promises the metadata of this, the last successful, upload
+	if unchanged && s.prop == "C09" && before != nil && before.alts == nil {
+		// C09: the rewrite is a successful upload with a TTL, so the blob must stay readable until
+		// THIS upload's TTL has elapsed; the stored record (metadata) is whatever it was
+		c := *before
+		c.appendAt, c.ttlMin, c.phase = t0, after.ttlMin, s.phase
+		s.rewrittenUnchanged[a.Key] = true
+		after = &c
+	} else if unchanged && s.prop != "C01" && before != nil && before.alts == nil {
+		// identical rewrite answered "unchanged": nothing is appended and the stored record stays as
+		// it is. What that does to the metadata of the upload is C01's clause (and recorded finding);
+		// the other properties follow the stored record.
+		after = before
+	} else if unchanged {
+		// C01: the statement promises the metadata of this, the last successful, upload;
+		// the stored record keeps its age (TTL clock)
 		s.unchangedRewrite[a.Key] = true
-		after.appendAt = before.appendAt
+		if before != nil && before.alts == nil {
+			after.appendAt = before.appendAt
+		}
 	} else if !unchanged && werr == nil {
 		delete(s.unchangedRewrite, a.Key)
+		delete(s.rewrittenUnchanged, a.Key)
+	}
+	wrongCookie := false
+	if before != nil && before.alts == nil && before.Exists && before.Cookie != a.Cookie {
+		wrongCookie = true
 	}
 	switch {
+	case wrongCookie && werr != nil:
+		// an upload presenting another cookie than the stored one is refused: nothing changes
+		r.Probe("wrong-cookie-upload-refused")
+		return
+	case wrongCookie && werr == nil && before.Live() && len(before.Data) > 0 && !s.heldEmpty[a.Key]:
+		r.Violate("wrong-cookie-upload-accepted", "live-blob", "upload of key=%d with cookie %x was acknowledged (unchanged=%v) although the stored blob has cookie %x", a.Key, a.Cookie, unchanged, before.Cookie)
+		return
 	case s.volumeGone:
 		if werr == nil {
 			r.Violate("write-accepted-on-missing-volume", "w", "write key=%d succeeded although the volume was deleted", a.Key)
@@ -378,7 +406,12 @@ func (s *sess) doWrite(st *simkit.Step) {
 			r.Violate("write-on-read-only", "w", "write key=%d to a read-only volume was accepted", a.Key)
 		}
 	case werr != nil && !faultFired && !(before != nil && before.alts != nil):
-		r.Violate("write-failed", s.blobClass(after), "write key=%d len=%d on a healthy writable volume failed: %v", a.Key, len(a.Data), werr)
+		wclass, wkey := "write-failed", s.blobClass(after)
+		if s.anySyncFailed() {
+			// the recorded fsync-rollback finding leaves stale index entries that later operations trip over
+			wclass, wkey = "inconsistent-after-failed-fsync-batch", "later-operation-on-that-volume-fails"
+		}
+		r.Violate(wclass, wkey, "write key=%d len=%d on a healthy writable volume failed: %v", a.Key, len(a.Data), werr)
 	case werr != nil:
 		// a faulted operation (or an operation on a key an earlier fault left undecided)
 		// may fail or may have taken effect, never a third thing
@@ -427,7 +460,11 @@ func (s *sess) doDelete(st *simkit.Step) {
 			r.Violate("delete-on-read-only", "d", "delete key=%d on a read-only volume was accepted", key)
 		}
 	case derr != nil && !faultFired && !(before != nil && before.alts != nil):
-		r.Violate("delete-failed", s.blobClass(before), "delete key=%d on a healthy writable volume failed: %v", key, derr)
+		dclass, dkey := "delete-failed", s.blobClass(before)
+		if s.anySyncFailed() {
+			dclass, dkey = "inconsistent-after-failed-fsync-batch", "later-operation-on-that-volume-fails"
+		}
+		r.Violate(dclass, dkey, "delete key=%d on a healthy writable volume failed: %v", key, derr)
 	case derr != nil:
 		alts := candsOf(before)
 		for _, b := range candsOf(before) {
@@ -499,7 +536,11 @@ func (s *sess) checkKey(key uint64, tag string) {
 		return
 	}
 	m := s.model[key]
-	rr := ReadBlob(s.A.st, key, CookieOf(key))
+	cookie := CookieOf(key)
+	if m != nil && m.alts == nil && m.Exists {
+		cookie = m.Cookie
+	}
+	rr := ReadBlob(s.A.st, key, cookie)
 	now := s.now()
 	cands := []*mblob{m}
 	if m != nil && m.alts != nil {
@@ -565,13 +606,19 @@ func (s *sess) checkKey(key uint64, tag string) {
 			key2 = "key-held-empty-blob:not-found"
 		}
 	}
+	if s.unchangedRewrite[key] && rr.Err == nil {
+		for _, c := range cands {
+			if c != nil && string(rr.N.Data) == string(c.Data) {
+				key2 = "identical-data-rewrite-keeps-old-metadata"
+			}
+		}
+	}
 	if s.syncFailed[key] {
-		key2 = "key-written-in-batch-whose-fsync-failed"
+		class, key2 = "inconsistent-after-failed-fsync-batch", "key-written-in-that-batch"
 	}
-	if s.unchangedRewrite[key] && rr.Err == nil && ref != nil && string(rr.N.Data) == string(ref.Data) {
-		key2 = "identical-data-rewrite-keeps-old-metadata"
-	}
-	if s.compacted {
+	if s.prop == "C09" && s.rewrittenUnchanged[key] {
+		key2 = s.rewriteKey()
+	} else if s.compacted {
 		key2 += "/after-compaction-algo" + fmt.Sprint(s.calgo) + "/last-op-" + refPhase(ref)
 		if ck := s.causeKey(key, m, ""); ck != "" && !strings.HasPrefix(key2, "key-held-empty-blob") && !strings.HasPrefix(key2, "identical-") && !strings.HasPrefix(key2, "key-written") {
 			key2 = ck
@@ -1062,12 +1109,25 @@ func (s *sess) causeKey(key uint64, m *mblob, detail string) string {
 	switch {
 	case s.heldEmpty[key]:
 		return "empty-blob"
+	case s.rewrittenUnchanged[key]:
+		return s.rewriteKey()
 	case ref != nil && ref.ttlMin > 0 && ttlMinutes(s.volTtl) != ref.ttlMin:
 		return "blob-ttl-differs-from-volume-ttl"
-	case ref != nil && ref.ttlMin > 0 && ref.LM != 0 && (ref.appendAt.Unix()-int64(ref.LM) > 30 || int64(ref.LM)-ref.appendAt.Unix() > 30):
-		return "ttl-blob-with-client-timestamp"
+	case ref != nil && ref.ttlMin > 0 && ref.LM != 0 && ref.appendAt.Unix()-int64(ref.LM) > 30:
+		return "ttl-blob-with-client-timestamp" // a client timestamp in the past
+	case ref != nil && ref.ttlMin > 0 && ref.LM != 0 && int64(ref.LM)-ref.appendAt.Unix() > 30:
+		return "ttl-blob-with-future-client-timestamp"
 	case s.compacted && s.calgo == 1 && s.orderHazard:
 		return "algo1:largest-key-not-last-record"
 	}
 	return detail
+}
+
+func (s *sess) anySyncFailed() bool { return len(s.syncFailed) > 0 }
+
+func (s *sess) rewriteKey() string {
+	if s.volTtl == "" {
+		return "identical-rewrite-does-not-restart-ttl/volume-without-ttl"
+	}
+	return "identical-rewrite-does-not-restart-ttl/ttl-volume"
 }
